@@ -25,6 +25,7 @@ import (
 	"verifharness/hx"
 
 	"github.com/iotaledger/hive.go/ads"
+	"github.com/iotaledger/hive.go/kvstore"
 	"github.com/iotaledger/hive.go/kvstore/mapdb"
 	"github.com/iotaledger/hive.go/serializer/v2/typeutils"
 )
@@ -60,10 +61,15 @@ func fail(r *hx.Run, oracle, detail string) {
 	r.Fail(oracle, detail, map[string]string{"oracle": oracle, "part": "concurrent"})
 }
 
+func newMap(st kvstore.KVStore) amap {
+	return ads.NewMap[[32]byte](st, typeutils.ByteArray32ToBytes, typeutils.ByteArray32FromBytes,
+		keyToBytes, bytesToKey, valToBytes, bytesToVal)
+}
+
 func runCase(r *hx.Run, sub uint64, rng *hx.Rng, keys []string, rounds int) {
 	r.Case(sub)
-	m := ads.NewMap[[32]byte](mapdb.NewMapDB(), typeutils.ByteArray32ToBytes, typeutils.ByteArray32FromBytes,
-		keyToBytes, bytesToKey, valToBytes, bytesToVal)
+	st := mapdb.NewMapDB()
+	m := newMap(st)
 	nG := rng.Range(3, 8)
 	written := map[string][][]byte{} // every value ever Set per key
 	present := map[string]bool{}     // at the last quiescent point
@@ -98,8 +104,12 @@ func runCase(r *hx.Run, sub uint64, rng *hx.Rng, keys []string, rounds int) {
 					sc = append(sc, call{kind: "get", key: k})
 				case x < 85:
 					sc = append(sc, call{kind: "has", key: k})
-				case x < 95:
+				case x < 91:
 					sc = append(sc, call{kind: "size"})
+				case x < 94:
+					sc = append(sc, call{kind: "root"})
+				case x < 97:
+					sc = append(sc, call{kind: "stream"})
 				default:
 					sc = append(sc, call{kind: "commit"})
 				}
@@ -150,6 +160,20 @@ func runCase(r *hx.Run, sub uint64, rng *hx.Rng, keys []string, rounds int) {
 							}
 						case "size":
 							o.size = m.Size()
+						case "root":
+							_ = m.Root()
+						case "stream":
+							seen := map[string]bool{}
+							if err := m.Stream(func(k hkey, _ hval) error {
+								if seen[string(k)] {
+									o.err = "Stream delivered a key twice"
+								}
+								seen[string(k)] = true
+
+								return nil
+							}); err != nil {
+								o.err = err.Error()
+							}
 						case "commit":
 							if err := m.Commit(); err != nil {
 								o.err = err.Error()
@@ -167,11 +191,17 @@ func runCase(r *hx.Run, sub uint64, rng *hx.Rng, keys []string, rounds int) {
 		// quiescent observation
 		size := 0
 		var stream []string
+		contents := map[string][]byte{}
 		var hasT, hasF []string
 		now := map[string]bool{}
 		if p := hx.Safely(func() {
 			size = m.Size()
-			if err := m.Stream(func(k hkey, _ hval) error { stream = append(stream, hx.Hex(k)); return nil }); err != nil {
+			if err := m.Stream(func(k hkey, v hval) error {
+				stream = append(stream, hx.Hex(k))
+				contents[string(k)] = clone(v)
+
+				return nil
+			}); err != nil {
 				fail(r, "no-error", "Stream at quiescence: "+err.Error())
 			}
 			for _, k := range alphabet {
@@ -194,6 +224,46 @@ func runCase(r *hx.Run, sub uint64, rng *hx.Rng, keys []string, rounds int) {
 		}
 		r.Line(fmt.Sprintf("qquiesce %d S %s T %s F %s", size, strings.Join(stream, " "), strings.Join(hasT, " "), strings.Join(hasF, " ")), "accept")
 		// independent oracle
+		if p := hx.Safely(func() {
+			if round%8 != 7 {
+				return
+			}
+			// the root at quiescence is the root of a new map fed the streamed contents in key order
+			fresh := newMap(mapdb.NewMapDB())
+			ks := make([]string, 0, len(contents))
+			for k := range contents {
+				ks = append(ks, k)
+			}
+			sort.Strings(ks)
+			for _, k := range ks {
+				if err := fresh.Set(hkey(k), hval(contents[k])); err != nil {
+					fail(r, "no-error", "Set on a fresh map: "+err.Error())
+				}
+			}
+			if m.Root() != fresh.Root() {
+				fail(r, "root-content-only-at-quiescence", fmt.Sprintf("round %d (%d goroutines): Root() is not the root of a new map fed the %d streamed pairs; scripts %v", round, nG, len(contents), scripts))
+			}
+			{
+				// Commit at quiescence, then one more instance over the same store (read only)
+				if err := m.Commit(); err != nil {
+					fail(r, "no-error", "Commit at quiescence: "+err.Error())
+				}
+				probe := newMap(st)
+				if probe.Root() != m.Root() || probe.Size() != size || !probe.WasRestoredFromStorage() {
+					fail(r, "reopen-faithful-at-quiescence", fmt.Sprintf("round %d: an instance opened after Commit reports Size() = %d (live: %d), same root = %v, restored = %v",
+						round, probe.Size(), size, probe.Root() == m.Root(), probe.WasRestoredFromStorage()))
+				}
+				for k, w := range contents {
+					v, ok, err := probe.Get(hkey(k))
+					if err != nil || !ok || string(v) != string(w) {
+						fail(r, "reopen-faithful-at-quiescence", fmt.Sprintf("round %d: an instance opened after Commit holds %x=%x (exists=%v, %v), the live map %x", round, k, v, ok, err, w))
+					}
+				}
+				r.Count("probe-after-commit-at-quiescence")
+			}
+		}); p != "" {
+			fail(r, "no-error", fmt.Sprintf("round %d: panic while comparing with a fresh / reopened map: %s", round, p))
+		}
 		if size != len(stream) || size != len(hasT) {
 			fail(r, "size-eq-card-at-quiescence", fmt.Sprintf("round %d (%d goroutines): Size() = %d, %d keys streamed, %d keys with Has = true; scripts %v",
 				round, nG, size, len(stream), len(hasT), scripts))
